@@ -4,6 +4,7 @@ SPEC = dict(
     rule="rapid-generated message sequences pushed through the real stream encoders and decoders "
          "(msgappv2: MsgApp-shaped messages of 1-6 raft groups sharing one stream, entry sizes around the 1 MiB buffer limit; "
          "message codec: all types, arbitrary fields); every/sampled truncation point; byte mutations. "
+         "Sub-run stream: the real streamWriter (queue, flush batching, attach / stop; hook rafthttp.VerifStreamWriterRun) in front of the real decoder, with a backlog queued before the connection is attached (none, a few, around the flush-batch limit of half the queue, up to the full queue) and batches queued afterwards: what the queue accepted is what is read back, in order. "
          "distinct_nontrivial sums, per sub-run, the distinct cases that satisfy that sub-run's rule (see sub_runs).",
     assumptions=[
         "msgappv2 inputs are restricted to what peer.pick routes there: MsgApp with From/To equal to the groups' replica ids, group name a function of group id, FromGroup.NodeId == remote, ToGroup.NodeId == local",
@@ -15,6 +16,7 @@ SPEC = dict(
         dict(name="msgrt", pkg="c16_codec", test="TestMessageRoundTrip", checks=6000, shards=1),
         dict(name="msgtrunc", pkg="c16_codec", test="TestMessageTruncation", checks=300, shards=2),
         dict(name="corrupt", pkg="c16_codec", test="TestCorruptStreamNoPanic", checks=8000, shards=1),
+        dict(name="stream", pkg="c16_codec", test="TestStreamWriter", checks=150, shards=4),
         dict(name="known", pkg="c16_codec", test="TestKnown.*", checks=1, shards=1),
     ],
     thorough=[
@@ -24,6 +26,7 @@ SPEC = dict(
         dict(name="msgtrunc", pkg="c16_codec", test="TestMessageTruncation", checks=2500, shards=3),
         dict(name="corrupt", pkg="c16_codec", test="TestCorruptStreamNoPanic", checks=100000, shards=1),
         dict(name="known", pkg="c16_codec", test="TestKnown.*", checks=1, shards=1),
+        dict(name="stream", pkg="c16_codec", test="TestStreamWriter", checks=4000, shards=6),
         dict(name="fuzzv2", pkg="c16_codec", fuzz="FuzzMsgAppV2Decode", fuzztime="90s", parallel=6),
         dict(name="fuzzmsg", pkg="c16_codec", fuzz="FuzzMessageDecode", fuzztime="60s", parallel=4),
     ],
@@ -32,7 +35,7 @@ SPEC = dict(
 TEXT = dict(
     engine="codec",
     design_ref="DESIGN.md §4 C16",
-    technique="property-based testing (rapid): round-trip and prefix-then-error oracles over generated message streams; native go fuzzing of both decoders in the thorough tier",
-    level_text="Generated-input exploration: tens of thousands of multi-group message sequences through the real msgappv2 and message encoders/decoders compared message by message (after the whole stream is decoded, so buffer aliasing shows); every truncation point of small streams must give a prefix of the sent sequence followed by an error; mutated streams and fuzzed bytes must not panic or allocate from unchecked lengths. No absence claim.",
+    technique="property-based testing (rapid): round-trip and prefix-then-error oracles over generated message streams; the real stream writer over an in-memory connection; native go fuzzing of both decoders in the thorough tier",
+    level_text="Generated-input exploration: tens of thousands of multi-group message sequences through the real msgappv2 and message encoders/decoders compared message by message (after the whole stream is decoded, so buffer aliasing shows); every truncation point of small streams must give a prefix of the sent sequence followed by an error; mutated streams and fuzzed bytes must not panic or allocate from unchecked lengths; the real stream writer is driven with backlogs around its flush-batch limit. The stream reader's dial / retry loop and real sockets are not driven. No absence claim.",
     level_note="Trusted: gogo-protobuf marshal/unmarshal of raftpb; the canonical text rendering used for equality (nil and empty slices identified). Inputs to msgappv2 are restricted to the MsgApp shape raft produces. For corrupted (not truncated) streams the format has no checksum, so only crash/allocation safety is decided.",
 )
